@@ -434,6 +434,9 @@ func (te *tableEngine) PlayerRedeemChips(joinPlayer JoinPlayer) error {
 
 	playerState := te.table.State.PlayerStates[playerIdx]
 	playerState.Bankroll += joinPlayer.RedeemChips
+	if err := te.sm.UpdatePlayerHasChips(playerState.PlayerID, playerState.Bankroll > 0); err != nil {
+		return err
+	}
 
 	te.emitEvent("PlayerRedeemChips", joinPlayer.PlayerID)
 	te.emitTablePlayerStateEvent(playerState)
